@@ -191,6 +191,10 @@ class Gen:
     def link(self, a: str, ap: int, b: str, bp: int, bandwidth: Optional[float] = None):
         bw = self.bandwidth() if bandwidth is None else bandwidth
         l = {"endpoint_a_hostname": a, "endpoint_a_port": ap, "endpoint_b_hostname": b, "endpoint_b_port": bp, "bandwidth": bw}
+        if self.p.get("implicit_bandwidth") and bandwidth is None and self.chance(self.p["implicit_bandwidth"]):
+            # a link that does not state its bandwidth gets the documented default of 100
+            del l["bandwidth"]
+            bw = 100
         self.links.append(l)
         self.inv["links"].append({"a": a, "a_port": ap, "b": b, "b_port": bp, "bandwidth": bw})
 
@@ -322,6 +326,11 @@ class Gen:
             svc(ntp_host, "ntp-server")
         for n in names:
             hosts[n]["dns_expected"] = ip_of[dns_host]
+            if self.p.get("node_dns") and self.chance(self.p["node_dns"]):
+                # a node-level resolver address, which a dns-client that states its own dns_server does not use
+                cfg_n = next(c for c in host_cfgs if c["hostname"] == n)
+                cfg_n["dns_server"] = r.choice([ip_of[dns_host], ip_of[r.choice(names)]])
+                hosts[n]["dns"] = cfg_n["dns_server"]
             if self.chance(0.35):
                 svc(n, "dns-client", {"dns_server": ip_of[dns_host]} if self.chance(0.5) else {})
             if self.chance(0.25):
@@ -414,6 +423,10 @@ class Gen:
             sw2 = self.add_switch("switch_2")
             self.link(sw1, 8, sw2, 8)
             sws.append(sw2)
+            if self.p.get("l2_loop") and self.chance(self.p["l2_loop"]):
+                # a redundant uplink: a layer-2 loop (flooded frames circulate until their TTL runs out)
+                self.link(sw1, 7, sw2, 7)
+                self.inv["l2_loop"] = True
         n = r.randint(2, max(2, self.p["max_hosts_per_subnet"] + 1))
         cfgs = []
         for i in range(n):
@@ -508,6 +521,34 @@ class Gen:
                 cfg["default_route"] = default
             self.nodes.insert(0, cfg)
             self.inv["routers"][name] = {"ports": copy.deepcopy(ports), "acl": copy.deepcopy(acl), "routes": copy.deepcopy(routes), "default_route": copy.deepcopy(default), "num_ports": 5}
+        return cfgs
+
+    def build_dualgw(self):
+        """Two subnets joined by TWO routers in parallel (.1 and .254 on both); every host picks one of them as its
+        default gateway, so forward and return paths may use different routers."""
+        r = self.r
+        p1: Dict[int, Dict] = {}
+        p2: Dict[int, Dict] = {}
+        cfgs = []
+        mask = "255.255.255.0"
+        for s in range(2):
+            third = 10 * (s + 1)
+            gw1, gw2 = f"192.168.{third}.1", f"192.168.{third}.254"
+            sw = self.add_switch(f"switch_{s + 1}")
+            p1[s + 1] = {"ip_address": gw1, "subnet_mask": mask}
+            p2[s + 1] = {"ip_address": gw2, "subnet_mask": mask}
+            self.link("router_1", s + 1, sw, 8)
+            self.link("router_2", s + 1, sw, 7)
+            n = r.randint(1, self.p["max_hosts_per_subnet"])
+            for i in range(n):
+                cfgs.append(self.add_host(f"host_{s}_{i}", f"192.168.{third}.{i + 2}", mask, r.choice([gw1, gw2]), None, sw, f"net{s}"))
+            self.inv["subnets"][f"net{s}"] = {"mask": mask, "gateway": gw1}
+        pool = [self.inv["hosts"][c["hostname"]]["ip"] for c in cfgs]
+        for name, ports in (("router_1", p1), ("router_2", p2)):
+            acl = self.router_acl(pool)
+            cfg = {"type": "router", "hostname": name, "num_ports": 5, "ports": ports, "acl": acl, "start_up_duration": self.pick_duration(), "shut_down_duration": self.pick_duration()}
+            self.nodes.insert(0, cfg)
+            self.inv["routers"][name] = {"ports": copy.deepcopy(ports), "acl": copy.deepcopy(acl), "routes": [], "default_route": None, "num_ports": 5}
         return cfgs
 
     def build_wireless(self):
